@@ -55,7 +55,8 @@ def pick_map(rng, kinds=('plain', 'wide', 'rec', 'packed'), h=0):
         elif pt in FLT_DT:
             st['sentinel'] = rng.choice([0.0, -1.0, -9999.0])
         else:
-            st['sentinel'] = rng.choice([0, -1, 7])
+            lo, hi = INT_RANGE[pt]
+            st['sentinel'] = rng.choice([0, max(lo, -1), 7])
     else:
         st['sentinel'] = None
     if rng.random() < 0.25:
@@ -119,6 +120,8 @@ def legal_ops(mk):
         return ['replace', 'add']
     ops = ['replace', 'add']
     sent = mk.get('sentinel')
+    if sent is None and dt.startswith('u'):
+        sent = 0    # default sentinel of unsigned types is iinfo.min == 0
     if sent == 0:
         ops += ['or', 'and']
     return ops
@@ -200,10 +203,36 @@ def rand_update(rng, mk, h=0, forms=('pix', 'pix', 'ring', 'setitem_arr', 'setit
     return st
 
 
+def rand_bad_update(rng, mk, h=0):
+    """a malformed update that must be rejected and leave every pixel unchanged"""
+    kind = mk['kind']
+    pixels = rand_pixels(rng, mk, unique=True, nmax=6)
+    if len(pixels) < 2:
+        pixels = [0, 1]
+    vals = [rand_value(rng, mk) for _ in pixels]
+    legal = legal_ops(mk)
+    illegal = [o for o in ['add', 'or', 'and', 'xor'] if o not in legal and not (kind == 'wide' and o == 'add')]
+    choices = ['dup_replace', 'bad_len', 'bad_dtype', 'none_op']
+    if illegal:
+        choices.append('bad_op')
+    if kind in ('plain', 'wide'):
+        choices.append('not_array')
+    bad = rng.choice(choices)
+    st = dict(op='badupd', h=h, bad=bad, pixels=pixels, values=vals)
+    if bad == 'bad_op':
+        st['operation'] = rng.choice(illegal)
+    if bad == 'none_op':
+        st['operation'] = rng.choice(['add', 'or', 'and'])
+    return st
+
+
 def gen_c01_history(rng, max_steps=10, kinds=('plain', 'wide', 'rec', 'packed')):
     mk = pick_map(rng, kinds)
     hist = [mk, dict(op='check', h=0)]
     for _ in range(rng.randint(1, max_steps)):
-        hist.append(rand_update(rng, mk))
+        if rng.random() < 0.15:
+            hist.append(rand_bad_update(rng, mk))
+        else:
+            hist.append(rand_update(rng, mk))
         hist.append(dict(op='check', h=0))
     return hist
